@@ -806,3 +806,83 @@ MUTANTS += [
         (FP, _JOIN_FULL, 'value = codecs.decode(b"".join(container).strip(), self.get_part_charset(current_part.headers), "replace")'),
     ]},
 ]
+
+# ---------------- round 4: header line separation (R2.2) and FileStorage.__init__ (R2.6)
+
+FS = "datastructures/file_storage.py"
+_SPLIT = '                name, _, value = line.decode().partition(":")\n                headers.append((name.strip(), value.strip()))\n'
+_FS_ELSE = "        else:\n            filename = fsdecode(filename)\n\n        self.filename = filename\n"
+_FS_BLOCK = (
+    "        if filename is None:\n"
+    '            filename = getattr(stream, "name", None)\n'
+    "\n"
+    "            if filename is not None:\n"
+    "                filename = fsdecode(filename)\n"
+    "\n"
+    '            if filename and filename[0] == "<" and filename[-1] == ">":\n'
+    "                filename = None\n"
+    "        else:\n"
+    "            filename = fsdecode(filename)\n"
+    "\n"
+    "        self.filename = filename\n"
+)
+
+MUTANTS += [
+    {"name": "header line cut at the last colon", "expect": "R2.2", "edits": [(MP, _SPLIT, '                name, value = line.decode().rsplit(":", 1)\n                headers.append((name.strip(), value.strip()))\n')]},
+    {"name": "header value is the second piece of a full split", "expect": "R2.2", "edits": [(MP, _SPLIT, '                pieces = line.decode().split(":")\n                headers.append((pieces[0].strip(), pieces[1].strip() if len(pieces) > 1 else ""))\n')]},
+    {"name": "header separator located with rfind", "expect": "R2.2", "edits": [(MP, _SPLIT, '                text = line.decode()\n                cut = text.rfind(":")\n                headers.append((text[:cut].strip(), text[cut + 1 :].strip()))\n')]},
+    {"name": "header lines with a second colon skipped", "expect": "R2.2", "edits": [(MP, _SPLIT, '                text = line.decode()\n                if text.count(":") != 1:\n                    continue\n                name, value = text.split(":")\n                headers.append((name.strip(), value.strip()))\n')]},
+    {"name": "angle-bracket discard moved behind both branches", "expect": "R2.6", "edits": [(FS, _FS_BLOCK,
+        "        if filename is None:\n"
+        '            filename = getattr(stream, "name", None)\n'
+        "\n"
+        "        if filename is not None:\n"
+        "            filename = fsdecode(filename)\n"
+        "\n"
+        '        if filename and filename.startswith("<") and filename.endswith(">"):\n'
+        "            filename = None\n"
+        "\n"
+        "        self.filename = filename\n")]},
+    {"name": "empty explicit filename replaced by the stream name", "expect": "R2.6", "edits": [(FS, "        if filename is None:\n            filename = getattr(stream, \"name\", None)\n", "        if not filename:\n            filename = getattr(stream, \"name\", None)\n")]},
+    {"name": "explicit filename stripped", "expect": "R2.6", "edits": [(FS, _FS_ELSE, "        else:\n            filename = fsdecode(filename).strip()\n\n        self.filename = filename\n")]},
+    {"name": "content type guessed from the filename overrides the part's header", "expect": "R2.6", "edits": [(FS, "        if content_type is not None:\n            headers[\"Content-Type\"] = content_type\n", "        if content_type is None and filename:\n            content_type = mimetypes.guess_type(filename)[0]\n        if content_type is not None:\n            headers[\"Content-Type\"] = content_type\n")]},
+    {"name": "pseudo-name filter in a helper applied to every filename", "expect": "R2.6", "edits": [
+        (FS, _FS_BLOCK,
+         "        if filename is None:\n"
+         '            filename = getattr(stream, "name", None)\n'
+         "\n"
+         "        self.filename = _usable_filename(filename)\n"),
+        (FS, "class FileStorage:\n", 'def _usable_filename(value: t.Any) -> str | None:\n    if value is None:\n        return None\n    text = fsdecode(value)\n    if text[:1] == "<" and text[-1:] == ">":\n        return None\n    return text\n\n\nclass FileStorage:\n'),
+    ]},
+]
+
+TWINS += [
+    {"name": "header line separated with split(':', 1)", "edits": [(MP, _SPLIT, '                name, value = line.decode().split(":", 1)\n                headers.append((name.strip(), value.strip()))\n')]},
+    {"name": "header separator located with index, sliced", "edits": [(MP, _SPLIT, '                text = line.decode()\n                cut = text.index(":")\n                headers.append((text[:cut].strip(), text[cut + 1 :].strip()))\n')]},
+    {"name": "header line split while still bytes, pieces decoded", "edits": [(MP, _SPLIT, '                raw_name, _, raw_value = line.partition(b":")\n                headers.append((raw_name.decode().strip(), raw_value.decode().strip()))\n')]},
+    {"name": "header pairs built by a comprehension over partitioned lines", "edits": [(MP, "        for line in data.splitlines():\n            line = line.strip()\n\n            if line != b\"\":\n" + _SPLIT, '        split_lines = [ln.strip().decode().partition(":") for ln in data.splitlines() if ln.strip() != b""]\n        headers.extend((nm.strip(), val.strip()) for nm, _, val in split_lines)\n')]},
+    {"name": "FileStorage: explicit filename branch first", "edits": [(FS, _FS_BLOCK,
+        "        if filename is not None:\n"
+        "            filename = fsdecode(filename)\n"
+        "        else:\n"
+        '            filename = getattr(stream, "name", None)\n'
+        "\n"
+        "            if filename is not None:\n"
+        "                filename = fsdecode(filename)\n"
+        "\n"
+        '            if filename and filename.startswith("<") and filename.endswith(">"):\n'
+        "                filename = None\n"
+        "\n"
+        "        self.filename = filename\n")]},
+    {"name": "FileStorage: stream name looked up by a helper, explicit filename untouched", "edits": [
+        (FS, _FS_BLOCK,
+         "        if filename is None:\n"
+         "            filename = _name_of_stream(stream)\n"
+         "        else:\n"
+         "            filename = fsdecode(filename)\n"
+         "\n"
+         "        self.filename = filename\n"),
+        (FS, "class FileStorage:\n", 'def _name_of_stream(stream: t.Any) -> str | None:\n    found = getattr(stream, "name", None)\n    if found is None:\n        return None\n    text = fsdecode(found)\n    if text and text[0] == "<" and text[-1] == ">":\n        return None\n    return text\n\n\nclass FileStorage:\n'),
+    ]},
+    {"name": "FileStorage: default headers by conditional expression, content type via set", "edits": [(FS, "        if headers is None:\n            headers = Headers()\n        self.headers = headers\n        if content_type is not None:\n            headers[\"Content-Type\"] = content_type\n", "        self.headers = headers = Headers() if headers is None else headers\n        if content_type is not None:\n            headers.set(\"Content-Type\", content_type)\n")]},
+]
